@@ -452,6 +452,39 @@ def check_c10(tier, seed):
                 b.count("forced flag survives replays")
                 if v.constant is not forced or x.constant is not base_const:
                     b.fail("C10.bounded.forced_flag_lost", desc, f"view.constant={v.constant} (forced {forced}), base.constant={x.constant} (was {base_const})")
+                # ... and when the forced-flag view is itself the TARGET of the update: every tensor keeps its own flag, plain views of the base
+                # keep the base's, constants acquire no gradient and the written value gets its gradient iff the memory owner is non-constant
+                for how2 in ("setitem", "iadd", "out="):
+                    x2 = mg.tensor(rng.uniform(1, 2, size=4), constant=base_const)
+                    try:
+                        v2 = vm(x2, forced)
+                    except Exception:
+                        break
+                    if v2.base is None:
+                        break
+                    plain = x2[1:]
+                    yv = mg.tensor(rng.uniform(1, 2, size=v2.shape))
+                    d2 = dict(forced_view=vn, base_const=base_const, forced=forced, target="the forced-flag view", update=how2)
+                    b.count("in-place update whose target is a forced-flag view")
+                    try:
+                        if how2 == "setitem":
+                            v2[...] = yv
+                        elif how2 == "iadd":
+                            v2 += yv
+                        else:
+                            mg.multiply(yv, 2.0, out=v2)
+                        fresh = x2[:2]
+                        (x2 * 1.0).sum().backward()
+                    except Exception as e:
+                        b.fail("C10.bounded.inplace_flag_raises", d2, f"{type(e).__name__}: {e}")
+                        continue
+                    if v2.constant is not forced or x2.constant is not base_const or plain.constant is not base_const or fresh.constant is not base_const:
+                        b.fail("C10.bounded.inplace_flag", d2, f"view {v2.constant} (forced {forced}), base {x2.constant} (was {base_const}), plain view {plain.constant}, fresh view {fresh.constant}")
+                    elif base_const and (x2.grad is not None or plain.grad is not None):
+                        b.fail("C10.bounded.nograd", d2, "a constant base / its plain view acquired a gradient")
+                    elif (not base_const) and yv.grad is None:
+                        b.fail("C10.bounded.nonconstant_without_grad", d2, "the value written into a non-constant base received no gradient")
+                    b.case(d2)
                 b.case(desc)
     return b
 
@@ -608,6 +641,34 @@ def check_c11(tier, seed):
     agree("positive[operator]", lambda a: mg.positive(a), lambda a: +a, [x1], [False], dict(op="positive"))
     agree("matmul[operator]", lambda a, c: mg.matmul(a, c), lambda a, c: a @ c, [x1, x2], [False, False], dict(op="matmul"))
     agree("matmul[roperator]", lambda a, c: mg.matmul(a.data, c), lambda a, c: a.data @ c, [x1, x2], [False, False], dict(op="rmatmul"))
+    # method vs function vs NumPy-dispatch spellings with negative and mixed-sign axes, on a 3-d tensor: values, flags AND gradients
+    x3 = rng.uniform(0.3, 0.9, size=(2, 3, 4))
+    import itertools as _it
+
+    for perm in _it.permutations(range(3)):
+        for signs in _it.product((0, -3), repeat=3):
+            ax = tuple(p_ + s_ for p_, s_ in zip(perm, signs))
+            d_ = dict(op="transpose", axes=list(ax))
+            agree("transpose[method,axes-tuple]", lambda a: mg.transpose(a, ax), lambda a: a.transpose(ax), [x3], [False], dict(d_, A="mg.transpose(x, axes)", B="x.transpose(axes)"))
+            agree("transpose[method,axes-varargs]", lambda a: mg.transpose(a, ax), lambda a: a.transpose(*ax), [x3], [False], dict(d_, A="mg.transpose(x, axes)", B="x.transpose(*axes)"))
+            agree("transpose[np]", lambda a: mg.transpose(a, ax), lambda a: np.transpose(a, ax), [x3], [False], dict(d_, A="mg.transpose(x, axes)", B="np.transpose(x, axes)"))
+            agree("transpose[varargs-function]", lambda a: mg.transpose(a, ax), lambda a: mg.transpose(a, *ax), [x3], [False], dict(d_, A="mg.transpose(x, axes)", B="mg.transpose(x, *axes)"))
+    for a1, a2 in [(0, -1), (-1, 0), (-2, 2), (1, -3), (-1, -2)]:
+        agree("swapaxes[method]", lambda a: mg.swapaxes(a, a1, a2), lambda a: a.swapaxes(a1, a2), [x3], [False], dict(op="swapaxes", axes=[a1, a2]))
+        agree("swapaxes[np]", lambda a: mg.swapaxes(a, a1, a2), lambda a: np.swapaxes(a, a1, a2), [x3], [False], dict(op="swapaxes", axes=[a1, a2]))
+        agree("moveaxis[method]", lambda a: mg.moveaxis(a, a1, a2), lambda a: a.moveaxis(a1, a2), [x3], [False], dict(op="moveaxis", axes=[a1, a2]))
+        agree("moveaxis[np]", lambda a: mg.moveaxis(a, a1, a2), lambda a: np.moveaxis(a, a1, a2), [x3], [False], dict(op="moveaxis", axes=[a1, a2]))
+    for axv in (-1, -2, -3, (0, -1), (-1, -2), (-3, 1)):
+        for nm_ in ("sum", "mean", "prod", "max", "min", "var", "std"):
+            if isinstance(axv, tuple) and nm_ in ("max", "min") and False:
+                continue
+            mgf_ = getattr(mg, nm_)
+            agree(nm_ + "[method,negative-axis]", lambda a: mgf_(a, axis=axv), lambda a: getattr(a, nm_)(axis=axv), [x3], [False], dict(op=nm_, axis=repr(axv), A="mg", B="method"))
+            agree(nm_ + "[np,negative-axis]", lambda a: mgf_(a, axis=axv), lambda a: getattr(np, nm_)(a, axis=axv), [x3], [False], dict(op=nm_, axis=repr(axv), A="mg", B="numpy function"))
+    for axv in (-1, -2):
+        for nm_ in ("cumsum", "cumprod"):
+            mgf_ = getattr(mg, nm_)
+            agree(nm_ + "[method,negative-axis]", lambda a: mgf_(a, axis=axv), lambda a: getattr(a, nm_)(axis=axv), [x3], [False], dict(op=nm_, axis=axv))
     methods = [("sum", dict(axis=0)), ("prod", dict(axis=1)), ("mean", dict(axis=(0, 1))), ("max", dict(axis=0)), ("min", dict()), ("std", dict(axis=1)), ("var", dict(ddof=1)), ("cumsum", dict(axis=1)), ("cumprod", dict(axis=0)),
                ("swapaxes", (0, 1)), ("transpose", ()), ("moveaxis", (0, 1)), ("squeeze", ()), ("ravel", ()), ("reshape", ((3, 2),)), ("clip", (0.4, 0.8))]
     for nm, arg in methods:
